@@ -70,6 +70,37 @@ func checkAbsent(prop string, seg segment.Segment, want *spec.Obs) *Violation {
 					v = violation(prop, "absent-term/nonempty-postings", "absent term %q in field %q has %d hits, Count=%d", t, f, len(hits), pl.Count())
 					return nil
 				}
+				// the same lookup with a recycled list (as term searchers do): a list that
+				// last held a present term is passed back as preallocation
+				for pf, pterms := range want.Index {
+					for pt := range pterms {
+						pd, err := seg.Dictionary(pf)
+						if err != nil {
+							return err
+						}
+						prev, err := pd.PostingsList([]byte(pt), nil, nil)
+						if err != nil {
+							return err
+						}
+						if _, err := drive.Hits(prev); err != nil {
+							return err
+						}
+						pl2, err := d.PostingsList([]byte(t), nil, prev)
+						if err != nil {
+							return fmt.Errorf("PostingsList(%q,%q) with a recycled list: %w", f, t, err)
+						}
+						hits2, err := drive.Hits(pl2)
+						if err != nil {
+							return fmt.Errorf("iterating a recycled list for absent (%q,%q): %w", f, t, err)
+						}
+						if len(hits2) != 0 || pl2.Count() != 0 {
+							v = violation(prop, "absent-term/nonempty-postings-recycled", "absent term %q in field %q looked up with a list recycled from (%q,%q) has %d hits, Count=%d", t, f, pf, pt, len(hits2), pl2.Count())
+							return nil
+						}
+						break
+					}
+					break
+				}
 				if ok, _ := d.Contains([]byte(t)); ok {
 					v = violation(prop, "absent-term/contains", "Contains(%q,%q) true for an absent term", f, t)
 					return nil
